@@ -22,10 +22,13 @@ from vlib import sqlo
 
 PROP = 'C15'
 META = {
-    'extractors': ['inherit'],
+    'extractors': ['inherit', 'pyinherit'],
     'technique': ('Lean 4 proof (invariant preserved by every operation, induction over histories and over the '
                   'class tree) + extracted control-flow facts of destroySelf / get / _create / deleteMany / deleteBy '
-                  '+ differential correspondence on histories + raw-table oracle'),
+                  '+ differential correspondence on histories + raw-table oracle; destroySelf / deleteMany / deleteBy / '
+                  '_create / get of InheritableSQLObject are TRANSLATED from the AST on every run '
+                  '(vlib/extractors/pyinherit.py -> Extracted/PyInherit.lean, deep embedding Model/PyInherit.lean) and the '
+                  'translated programs are proved equal to the hand model by symbolic execution (C15_translated_*)'),
     'level_text': ('Theorems C15_*: for every well-formed class tree (any depth, any branching, forests) and every '
                    'history of create / attribute write / set / destroy through any entry level and class-level '
                    'deleteMany / deleteBy, the tables satisfy the no-orphan invariant (C15_no_orphan_inv); get through '
